@@ -178,7 +178,21 @@ class YPPrologCompiler:
         self.pop_bound_vars()
         self.pop_bound_vars()
 
+        # every goal is a nested loop; Python refuses more than 20 nested blocks, and the
+        # function body itself is wrapped in one
+        if self.nesting_depth(arg_list_unification_code) >= 20:
+            raise CompilerError(self.context.current_source_file, clause.ctx, 'clause is too large (too many nested goals)')
+
         return head_var_arguments + free_var_declaration_code_head + free_var_declaration_code_body + arg_list_unification_code
+
+    def nesting_depth(self,code):
+        depth = 0
+        for c in code:
+            if isinstance(c,YPCodeForeach):
+                depth = max(depth, 1 + self.nesting_depth(c.loop_code))
+            elif isinstance(c,YPCodeBreakableBlock):
+                depth = max(depth, (1 if c.body != [] else 0) + self.nesting_depth(c.body))
+        return depth
 
     def compile_function(self,func,body):
         funcargs = [ self.get_argument_variable(i) for i in range(func[1]) ]
